@@ -9,20 +9,49 @@ import (
 	ac "github.com/voedger/voedger/pkg/appdefcompat"
 )
 
-// Node mirrors appdefcompat.CompatibilityTreeNode. appdefcompat's tree builder is unexported,
-// so the tree is rebuilt here from the IAppDef with the same type switches, in the same order,
-// through the same exported appdef accessors and NodeName constants (pkg/appdefcompat/impl.go
-// buildTree...buildViewNode). The correspondence check (model on these trees == real errors on
-// the IAppDefs) is what validates this transcription on every run.
+// Node is the harness copy of appdefcompat.CompatibilityTreeNode (without the parent pointer).
+// The trees of a case come from the REAL builder (appdefcompat.VerifBuildTree, export_verif.go,
+// build tag verif) through realTree. transcribedTree below is an independent transcription of
+// buildTree (same type switches, exported accessors and NodeName constants) kept only as a
+// cross-check: runCase fails the run if the two ever differ.
 type Node struct {
 	Name  string
 	Val   any // nil | string | bool | appdef.DataKind
 	Props []*Node
 }
 
+// realTree converts the tree appdefcompat builds. Children of the two map-ordered nodes
+// (Packages: Go map iteration; Uniques: map of uniques) are put into name order so that a run
+// is reproducible; their constraints (AppendOnly|OrderChangeOnly, none) ignore order.
+func realTree(app appdef.IAppDef) *Node { return convert(ac.VerifBuildTree(app)) }
+
+func convert(t *ac.CompatibilityTreeNode) *Node {
+	n := &Node{Name: t.Name, Val: t.Value}
+	for _, c := range t.Props {
+		n.Props = append(n.Props, convert(c))
+	}
+	if t.Name == ac.NodeNamePackages || t.Name == ac.NodeNameUniques {
+		sort.SliceStable(n.Props, func(i, j int) bool { return n.Props[i].Name < n.Props[j].Name })
+	}
+	return n
+}
+
+// equal: same names, values (dynamic type and content) and children, in order
+func (n *Node) equal(o *Node) bool {
+	if n.Name != o.Name || fmt.Sprintf("%T:%v", n.Val, n.Val) != fmt.Sprintf("%T:%v", o.Val, o.Val) || len(n.Props) != len(o.Props) {
+		return false
+	}
+	for i := range n.Props {
+		if !n.Props[i].equal(o.Props[i]) {
+			return false
+		}
+	}
+	return true
+}
+
 func nn(name string, val any, props ...*Node) *Node { return &Node{Name: name, Val: val, Props: props} }
 
-func buildTree(app appdef.IAppDef) *Node {
+func transcribedTree(app appdef.IAppDef) *Node {
 	pk := nn(ac.NodeNamePackages, nil)
 	for local, full := range app.Packages() {
 		pk.Props = append(pk.Props, nn(full, local))
